@@ -1,0 +1,7 @@
+//go:build verif
+
+package language
+
+// VerifLangCount returns the number of entries of the language table and the size of its
+// first segment. Used by the external verification harness only.
+func VerifLangCount() (total, known int) { return len(languagesInfos), int(knownLangsCount) }
